@@ -94,9 +94,11 @@ def class_def(n, d):
         lines.append("virtual void vf() = 0;")
     if d["ovr"]:
         lines.append("void vf() override {}")
-    for decl, st, body in ((n + "()", d["dc"], "{}"), (n + "(" + n + " const&)", d["cc"], "{}"),
+    ccp = "&" if d.get("ccnc") else " const&"
+    cap = "&" if d.get("canc") else " const&"
+    for decl, st, body in ((n + "()", d["dc"], "{}"), (n + "(" + n + ccp + ")", d["cc"], "{}"),
                            (n + "(" + n + "&&)", d["mc"], "{}"),
-                           (n + "& operator=(" + n + " const&)", d["ca"], "{ return *this; }"),
+                           (n + "& operator=(" + n + cap + ")", d["ca"], "{ return *this; }"),
                            (n + "& operator=(" + n + "&&)", d["ma"], "{ return *this; }")):
         m = _member(decl, st, body)
         if m:
